@@ -227,3 +227,39 @@ Definition pf_atom (f : pfun) : string * list string := (pf_name f, pf_vars f).
 Definition den_facts (s : mstate) : list (string * list string) := map gp_atom (all_preds s).
 Definition den_fluents (s : mstate) : list ((string * list string) * float) :=
   map (fun f => (pf_atom f, pf_val f)) (dvalues (st_fluents s)).
+
+(* ---------- typed_serialize (wave 3) ---------- *)
+(* PDDLFunction.state_typed_representation: the printed variables, each with signature[variable] (KeyError when a
+   repeating variable is no signature key): f"(= ({name} {' '.join(f'{v} - {type}')}) {value})" *)
+Definition pf_typed_text (num_text : float -> string) (f : pfun) : result string :=
+  do items <- mapM (fun v => match dget (pf_sig f) v with
+                             | Some t => Ok (v +++ " - " +++ t)
+                             | None => Err EKey
+                             end) (pf_vars f);
+  Ok ("(= (" +++ pf_name f +++ " " +++ join " " items +++ ") " +++ pf_value_text num_text f +++ ")").
+
+(* State.typed_serialize: "(<typed fluents joined by blanks>< for every predicate group: blank + the typed texts of its
+   facts, SORTED, joined by blanks>)\n" -- no ':init' / ':state' head *)
+Definition typed_serialize (num_text : float -> string) (s : mstate) : result string :=
+  do groups <- mapM (fun grp => do ts <- mapM gp_typed (snd grp); Ok (" " +++ join " " (sort_strs ts))) (st_preds s);
+  do fl <- mapM (pf_typed_text num_text) (dvalues (st_fluents s));
+  Ok ("(" +++ join " " fl +++ fold_left String.append groups "" +++ ")" +++ LFs).
+
+(* ---------- in-place changes of a state through its public attributes (wave 3) ---------- *)
+(* state_predicates[key].discard(g) / .remove(g) for the fact object(s) printing [text] *)
+Definition discard_fact (text : string) (s : mstate) : mstate :=
+  {| st_init := st_init s;
+     st_preds := map (fun kv => (fst kv, filter (fun g => negb (String.eqb (gp_untyped g) text)) (snd kv))) (st_preds s);
+     st_fluents := st_fluents s |}.
+
+(* state_predicates[key].add(g), the key present or not *)
+Definition add_fact (key : string) (g : gpred) (s : mstate) : mstate :=
+  {| st_init := st_init s; st_preds := preds_add key g (st_preds s); st_fluents := st_fluents s |}.
+
+(* state_fluents[key].set_value(x) *)
+Definition set_fluent_value (key : string) (x : float) (s : mstate) : mstate :=
+  {| st_init := st_init s; st_preds := st_preds s;
+     st_fluents := map (fun kv => if String.eqb (fst kv) key
+                                  then (fst kv, {| pf_name := pf_name (snd kv); pf_sig := pf_sig (snd kv); pf_val := x;
+                                                   pf_rep := pf_rep (snd kv); pf_int := false |})
+                                  else kv) (st_fluents s) |}.
